@@ -165,7 +165,10 @@ TMAChecks(o) ==
   LET prj == Prj(o.prj)
       n == ThirdFlat(FromJ(o.ell.invf), FromJ(o.n0))
       lat == FromJ(o.lat)
-      dl == FoldDl(Sub(FromJ(o.lon), FromInt(CMdeg(prj, o.fwd.zone))))
+      \* central meridian from the zone system AS BUILT, in exact arithmetic (the width may be fractional: 1.5 or 2.5 degree zones)
+      cmx == IF prj.isg THEN FromInt(CMdeg(prj, o.fwd.zone))
+             ELSE Add(Sub(MulSmall(FromJ(o.prj.zwx), o.fwd.zone), FromJ(o.prj.zwx)), FromJ(o.prj.cm1x))
+      dl == FoldDl(Sub(FromJ(o.lon), cmx))
   IN IF ~NOK(FromJ(o.ell.invf), n) THEN << <<"oracle_start_value", FALSE>> >>
      ELSE
      Let(<<SinCosDeg(lat), SinCosDeg(dl)>>, LAMBDA sc :
